@@ -459,6 +459,7 @@ pub fn echo_rich_empty<Q: CustomQuery>(
     if flag == 7 {
         r = r.add_message(cw::CosmosMsg::Custom(Empty {}));
     }
+    #[cfg(feature = "full")]
     if flag == 8 {
         #[allow(deprecated)]
         let m = cw::CosmosMsg::Stargate { type_url: "/s.T".into(), value: Binary::from(vec![3u8]) };
@@ -518,13 +519,17 @@ pub fn obs_inst_builder(b: StdResult<sylvia::builder::instantiate::InstantiateBu
             };
         }
     }
+    #[cfg(feature = "full")]
     let msg = match extra.get("salt").and_then(|s| s.as_str()) {
         Some(salt) => b.build2(Binary::from(salt.as_bytes().to_vec())),
         None => b.build(),
     };
+    #[cfg(not(feature = "full"))]
+    let msg = b.build();
     match msg {
         cw::WasmMsg::Instantiate { admin, code_id, msg, funds, label } => json!({"res": "ok", "variant": "instantiate", "admin": admin, "code_id": code_id,
             "msg": String::from_utf8_lossy(msg.as_slice()).to_string(), "funds": coins_json(&funds), "label": label, "salt": Value::Null}),
+        #[cfg(feature = "full")]
         cw::WasmMsg::Instantiate2 { admin, code_id, label, msg, funds, salt } => json!({"res": "ok", "variant": "instantiate2", "admin": admin, "code_id": code_id,
             "msg": String::from_utf8_lossy(msg.as_slice()).to_string(), "funds": coins_json(&funds), "label": label, "salt": String::from_utf8_lossy(salt.as_slice()).to_string()}),
         other => json!({"res": "ok", "variant": "other", "dbg": format!("{:?}", other)}),
